@@ -79,22 +79,7 @@ def c15_1(ctx, ss):
     (ctx.holds if (lo, hi) == (1, 1) else ctx.violation)("C15.1", k + " :: one-edge", where(ff, lp),
                                                          "exactly one edge is created per decay line on every path" if (lo, hi) == (1, 1)
                                                          else f"between {lo} and {'many' if hi >= 99 else hi} edges are created per decay line")
-    # every edge call in the loop targets the node created in the same branch
-    for c in [c for c in pf.calls_in(lp) if txt(c.func) == "self.graph.edge"]:
-        head = flow.expand(c.args[1]) if len(c.args) > 1 else None
-        ok = head is not None and isinstance(head, ast.Call) and isinstance(head.func, ast.Name) and head.func.id in creators
-        (ctx.holds if ok else ctx.violation)("C15.1", ckey(ff, c, "edge-head"), where(ff, c),
-                                             "the edge ends at the node just created for this line" if ok else f"the edge ends at `{txt(head)[:60] if head is not None else None}`")
     ctx.count("helpers", len(helpers))
-    # which helper: the plain node exactly for lines without a decaying daughter
-    for c in [c for c in pf.calls_in(lp) if isinstance(c.func, ast.Name) and c.func.id in creators]:
-        conds = [(txt(flow.expand(e, keep={txt(lp.target)})), pol) for kind, e, pol in guards.path_conditions(lp, stmt_of(ff, c)) if kind == "if" and "link_pos" not in txt(e)]
-        kk = ckey(ff, None, f"helper:{c.func.id}")
-        plain = "no_subchain" in c.func.id
-        okb = len(conds) == 1 and conds[0][0].startswith("has_subdecay(") and conds[0][1] == (not plain)
-        (ctx.holds if okb else ctx.violation)("C15.1", kk, where(ff, c),
-                                              f"{c.func.id} is used exactly for lines {'without' if plain else 'with'} a decaying daughter" if okb
-                                              else f"{c.func.id} is chosen under {conds}")
     hs = pf.module_facts(ss, VIEWER).funcs.get(f"{B}.has_subdecay")
     if hs is not None:
         r = [x for x in pf.walk_no_nested(hs.node) if isinstance(x, ast.Return)]
@@ -129,20 +114,6 @@ def c15_2(ctx, ss):
         ctx.violation("C15.2", k + " :: index", where(ff, bad[0]), f"`{txt(bad[0])}` does not use the loop variable `{lv}`: parts / label are taken from another decay line")
     else:
         ctx.holds("C15.2", k + " :: index", where(ff, lp), f"all {len(subs)} subscripts of subchain use the loop variable", len(subs) + 1)
-    line = f"subchain[{lv}]" if txt(lp.iter) != "subchain" else f"__elem__(subchain)"
-    for c in [c for c in pf.calls_in(lp) if txt(c.func) == "self.graph.edge"]:
-        lab = call_arg(c, 2, "label")
-        KEEP = {lv} if lv else set()
-        t = txt(flow.expand(lab, keep=KEEP)) if lab is not None else None
-        ok = t in (f"str({line}['bf'])", f"str(__elem__(subchain)['bf'])")
-        (ctx.holds if ok else ctx.violation)("C15.2", ckey(ff, c, "label"), where(ff, c),
-                                             "edge label = str(this line's bf)" if ok else f"edge label is `{t}`, not the branching fraction of this decay line")
-        head = flow.expand(c.args[1], keep=KEEP) if len(c.args) > 1 else None
-        if isinstance(head, ast.Call) and head.args:
-            t2 = txt(head.args[0])
-            ok2 = t2 in (f"{line}['fs']", "__elem__(subchain)['fs']")
-            (ctx.holds if ok2 else ctx.violation)("C15.2", ckey(ff, c, "parts"), where(ff, c),
-                                                  "node parts = this line's fs" if ok2 else f"the node lists `{t2}`, not the daughters of this decay line")
 
 
 def c15_3(ctx, ss):
@@ -176,86 +147,158 @@ def c15_3(ctx, ss):
     ctx.floor("C15.3", "label-building call sites", n, 2)
     # html_table_label itself iterates in order
     lf, lflow = fn(ss, VIEWER, f"{B}.html_table_label")
-    loops = [x for x in pf.walk_no_nested(lf.node) if isinstance(x, ast.For)]
-    ok = len(loops) == 1 and txt(loops[0].iter) == "enumerate(names)"
+    # every iteration that produces cells runs over ALL the names, in order (a for loop or a comprehension; no filter, slice, reordering)
+    p0 = lf.params[0]
+    srcs = []
+    for x in pf.walk_no_nested(lf.node):
+        if isinstance(x, ast.For):
+            srcs.append((x.iter, [], any(isinstance(y, (ast.Break, ast.Continue)) for y in ast.walk(x))))
+        elif isinstance(x, (ast.ListComp, ast.GeneratorExp, ast.SetComp)):
+            for g in x.generators:
+                srcs.append((g.iter, g.ifs, isinstance(x, ast.SetComp)))
+    srcs = [(it, ifs, bad_) for it, ifs, bad_ in srcs if any(isinstance(y, ast.Name) and y.id == p0 for y in ast.walk(lflow.expand(it)))]
+    ok = bool(srcs) and all(txt(lflow.expand(it)) in (p0, f"enumerate({p0})") and not ifs and not bad_ for it, ifs, bad_ in srcs)
     (ctx.holds if ok else ctx.violation)("C15.3", ckey(lf, None, "cells"), where(lf, lf.node),
-                                          "html_table_label writes one cell per name, in order" if ok else "html_table_label does not iterate enumerate(names)")
+                                          "html_table_label writes one cell per name, in order" if ok
+                                          else f"html_table_label does not run over all the names in order ({[txt(it)[:40] for it, _, _ in srcs]})")
+
+
+def _creator_roles(ss):
+    """(plain, tagged): names of the node-creating helpers — the tagged one builds its label with add_tags=True (one port
+    per daughter, for lines with a decaying daughter), the plain one without."""
+    helpers = _helpers(ss)
+    plain = tagged = None
+    for name, hf in helpers.items():
+        if name == "iterate_chain":
+            continue
+        calls = [c for c in pf.calls_in(hf.node, nested=False) if isinstance(c.func, ast.Name) and c.func.id == "html_table_label"]
+        if not calls:
+            continue
+        tags = any(kw.arg == "add_tags" and isinstance(kw.value, ast.Constant) and kw.value.value is True for c in calls for kw in c.keywords)
+        if tags:
+            tagged = name
+        else:
+            plain = name
+    if plain is None or tagged is None:
+        raise AnchorMissing("the two node-creating helpers (label with / without ports) were not found")
+    return plain, tagged
 
 
 def c15_4(ctx, ss):
+    """Case analysis of one decay line: (line has a decaying daughter?) × (drawn below a port of the parent?).  The function
+    is specialised to each case (guards.specialise) and read with the ordinary engines, so duplicated branches, merged
+    branches with conditional expressions, guard clauses … all give the same facts."""
+    from .common import case_of
     ff, flow = fn(ss, VIEWER, f"{B}.iterate_chain")
-    rec = [c for c in pf.calls_in(ff.node) if isinstance(c.func, ast.Name) and c.func.id == "iterate_chain"]
-    if not rec:
+    plain, tagged = _creator_roles(ss)
+    lp0 = _line_loop(ff, flow)
+    lv = lp0.target.id if isinstance(lp0.target, ast.Name) else None
+    line = f"subchain[{lv}]" if txt(lp0.iter) != "subchain" else "__elem__(subchain)"
+    KEEP = {lv, "top_node", "link_pos"} - {None}
+    tails = set()
+    rec_total = 0
+    for sub in (False, True):
+        for link_none in (True, False):
+            def atom(e, sub=sub, link_none=link_none):
+                t = txt(e)
+                if t.startswith("has_subdecay("):
+                    return sub
+                if t == "link_pos is None":
+                    return link_none
+                if t == "link_pos":          # truthiness test of the position: 0 is a valid position, so it does not decide
+                    return None
+                return None
+            cf, cflow = case_of(ss, ff, flow, atom, f"sub={sub},port={not link_none}")
+            case = f"{'with' if sub else 'without'} decaying daughter, {'top level' if link_none else 'below a port'}"
+            kc = f"{VIEWER}:{B}.iterate_chain :: case[{'sub' if sub else 'plain'},{'top' if link_none else 'port'}]"
+            lp = _line_loop(cf, cflow)
+            edges = [c for c in pf.calls_in(lp) if txt(c.func) == "self.graph.edge"]
+            if len(edges) != 1 or len(edges[0].args) < 2:
+                ctx.violation("C15.1", kc + " :: one-edge", where(cf, lp), f"{case}: {len(edges)} edge statements remain in this case (expected one)")
+                continue
+            e = edges[0]
+            head = cflow.expand(e.args[1], keep=KEEP)
+            want_h = tagged if sub else plain
+            okh = isinstance(head, ast.Call) and isinstance(head.func, ast.Name) and head.func.id == want_h and len(head.args) == 1
+            (ctx.holds if okh else ctx.violation)("C15.1", kc + " :: edge-head", where(cf, e),
+                                                  f"{case}: the edge ends at the node created for this line by {want_h}" if okh
+                                                  else f"{case}: the edge ends at `{txt(head)[:70]}` (expected the node created by {want_h}(<daughters of this line>))")
+            if okh:
+                t2 = txt(head.args[0])
+                ok2 = t2 in (f"{line}['fs']", "__elem__(subchain)['fs']")
+                (ctx.holds if ok2 else ctx.violation)("C15.2", kc + " :: parts", where(cf, e),
+                                                      "node parts = this line's fs" if ok2 else f"the node lists `{t2}`, not the daughters of this decay line")
+            lab = call_arg(e, 2, "label")
+            t = txt(cflow.expand(lab, keep=KEEP)) if lab is not None else None
+            okl = t in (f"str({line}['bf'])", "str(__elem__(subchain)['bf'])")
+            (ctx.holds if okl else ctx.violation)("C15.2", kc + " :: label", where(cf, e),
+                                                  "edge label = str(this line's bf)" if okl else f"edge label is `{t}`, not the branching fraction of this decay line")
+            # tail: the parent itself at top level, the parent's port of the decaying daughter otherwise
+            tail = cflow.expand(e.args[0], keep=KEEP)
+            if link_none:
+                okt = txt(tail) == "top_node"
+            else:
+                okt = False
+                if isinstance(tail, ast.JoinedStr):
+                    vals = tail.values
+                    if len(vals) == 3 and isinstance(vals[1], ast.Constant) and isinstance(vals[0], ast.FormattedValue) and isinstance(vals[2], ast.FormattedValue):
+                        m = re.fullmatch(r":(\w*)", vals[1].value)
+                        if m and txt(vals[0].value) == "top_node" and txt(vals[2].value) == "link_pos":
+                            okt = True
+                            tails.add(m.group(1))
+            (ctx.holds if okt else ctx.violation)("C15.4", kc + " :: tail", where(cf, e),
+                                                  f"{case}: the edge leaves {'the parent node' if link_none else 'the port <parent>:p<link_pos>'}" if okt
+                                                  else f"{case}: edge tail is `{txt(tail)[:70]}`")
+            # recursion
+            rec = [c for c in pf.calls_in(lp) if isinstance(c.func, ast.Name) and c.func.id == "iterate_chain"]
+            kr = kc + " :: recursion"
+            if not sub:
+                (ctx.holds if not rec else ctx.violation)("C15.4", kr, where(cf, rec[0] if rec else lp),
+                                                          "no recursion for a line of plain names" if not rec else "a line without decaying daughter recurses")
+                continue
+            rec_total += len(rec)
+            if len(rec) != 1:
+                ctx.violation("C15.4", kr, where(cf, lp), f"{case}: {len(rec)} recursive calls (expected one, inside the loop over the daughters)")
+                continue
+            c = rec[0]
+            lps = enclosing(cf, c, (ast.For,))
+            inner = lps[0]
+            if not (isinstance(inner.iter, ast.Call) and txt(inner.iter.func) == "enumerate" and isinstance(inner.target, ast.Tuple) and len(inner.target.elts) == 2):
+                ctx.violation("C15.4", kr, where(cf, c), "the recursion is not inside an enumerate() over the daughters")
+                continue
+            idx, el = (x.id for x in inner.target.elts)
+            lpos, tn, subarg = call_arg(c, 2, "link_pos"), call_arg(c, 1, "top_node"), (c.args[0] if c.args else None)
+            ok_pos = lpos is not None and txt(lpos) == idx
+            enum_src = txt(cflow.expand(inner.iter.args[0], keep=KEEP))
+            ok_list = okh and enum_src == txt(head.args[0])
+            ok_tn = tn is not None and txt(cflow.expand(tn, keep=KEEP)) == txt(head)
+            es = f"__elem__(enumerate({enum_src}))[1]"
+            ok_sub = subarg is not None and txt(cflow.expand(subarg, keep=KEEP)) in (f"{es}[next(iter({es}.keys()))]", f"{es}[next(iter({es}))]")
+            conds = [(txt(x), pol) for kind, x, pol in guards.path_conditions(inner, stmt_of(cf, c)) if kind == "if"]
+            ok_guard = conds in ([(f"isinstance({el}, str)", False)], [(f"isinstance({el}, dict)", True)])
+            exits = any(isinstance(x, (ast.Break, ast.Return)) for x in ast.walk(inner))
+            if ok_pos and ok_list and ok_tn and ok_sub and ok_guard and not exits:
+                ctx.holds("C15.4", kr, where(cf, c), "iterate_chain(<daughter's lines>, top_node=<this node>, link_pos=<daughter's index in the node>) for every decaying daughter", 5)
+            else:
+                ctx.violation("C15.4", kr, where(cf, c),
+                              f"recursion: link_pos ok={ok_pos}, same list as the node={ok_list} ({txt(head.args[0]) if okh else None} vs {enum_src}), parent node ok={ok_tn}, sub-chain ok={ok_sub}, guard={conds}, early exit={exits}")
+    if rec_total == 0:
         ctx.violation("C15.4", ckey(ff, None, "recursion"), where(ff, ff.node), "sub-decays are never drawn (no recursive call)")
-        return
-    for c in rec:
-        lps = enclosing(ff, c, (ast.For,))
-        k = ckey(ff, None, "recursion")
-        inner = lps[0]
-        ok = isinstance(inner.iter, ast.Call) and txt(inner.iter.func) == "enumerate" and isinstance(inner.target, ast.Tuple)
-        if not ok:
-            ctx.violation("C15.4", k, where(ff, c), "the recursion is not inside an enumerate() over the daughters")
-            continue
-        idx, el = (e.id for e in inner.target.elts)
-        lpos = call_arg(c, 2, "link_pos")
-        tn = call_arg(c, 1, "top_node")
-        sub = c.args[0] if c.args else None
-        ok_pos = lpos is not None and txt(lpos) == idx
-        enum_src = txt(flow.expand(inner.iter.args[0]))
-        # the enumerated list is the same list the parent node was built from
-        edge = [e for e in pf.calls_in(lps[-1]) if txt(e.func) == "self.graph.edge" and any(e is x for x in ast.walk(_branch_of(ff, c, lps[-1])))]
-        parent_parts = None
-        ok_tn = False
-        for e in edge:
-            head = flow.expand(e.args[1])
-            if isinstance(head, ast.Call) and head.args:
-                parent_parts = txt(head.args[0])
-                ok_tn = tn is not None and txt(flow.expand(tn)) == txt(head)
-        ok_list = parent_parts == enum_src
-        ok_sub = sub is not None and flow.text(sub) in (f"__elem__(enumerate({enum_src}))[1][next(iter(__elem__(enumerate({enum_src}))[1].keys()))]",)
-        conds = [(txt(e), pol) for kind, e, pol in guards.path_conditions(inner, stmt_of(ff, c)) if kind == "if"]
-        ok_guard = conds in ([(f"not isinstance({el}, str)", True)], [(f"isinstance({el}, dict)", True)], [(f"isinstance({el}, str)", False)])
-        if ok_pos and ok_list and ok_tn and ok_sub and ok_guard:
-            ctx.holds("C15.4", k, where(ff, c), "iterate_chain(<daughter's lines>, top_node=<this node>, link_pos=<daughter's index in the node>) for every decaying daughter", 5)
-        else:
-            ctx.violation("C15.4", k, where(ff, c),
-                          f"recursion: link_pos ok={ok_pos}, same list as the node={ok_list} ({parent_parts} vs {enum_src}), parent node ok={ok_tn}, sub-chain ok={ok_sub}, guard={conds}")
-    # port scheme agreement
+    # port scheme agreement: cells carry PORT="<prefix><position>", edges leave "<parent>:<prefix><link_pos>"
     lf, lflow = fn(ss, VIEWER, f"{B}.html_table_label")
     ports = set()
     for js in [x for x in pf.walk_no_nested(lf.node) if isinstance(x, ast.JoinedStr)]:
         parts = js.values
-        for i, p in enumerate(parts):
-            if isinstance(p, ast.Constant) and isinstance(p.value, str) and 'PORT="' in p.value and i + 1 < len(parts) and isinstance(parts[i + 1], ast.FormattedValue):
-                prefix = p.value.split('PORT="')[-1]
-                ports.add((prefix, txt(parts[i + 1].value)))
-    tails = set()
-    for c in [c for c in pf.calls_in(ff.node) if txt(c.func) == "self.graph.edge"]:
-        t = c.args[0]
-        if isinstance(t, ast.JoinedStr):
-            vals = t.values
-            if len(vals) == 3 and isinstance(vals[1], ast.Constant) and isinstance(vals[0], ast.FormattedValue) and isinstance(vals[2], ast.FormattedValue):
-                m = re.fullmatch(r":(\w*)", vals[1].value)
-                tails.add((m.group(1) if m else "?" + vals[1].value, txt(vals[0].value), txt(vals[2].value)))
-            else:
-                tails.add(("?", txt(t), ""))
+        for i, p_ in enumerate(parts):
+            if isinstance(p_, ast.Constant) and isinstance(p_.value, str) and 'PORT="' in p_.value and i + 1 < len(parts) and isinstance(parts[i + 1], ast.FormattedValue):
+                prefix = p_.value.split('PORT="')[-1]
+                ports.add((prefix, txt(lflow.expand(parts[i + 1].value))))
     k = ckey(ff, None, "ports")
-    lp_loops = [x for x in pf.walk_no_nested(lf.node) if isinstance(x, ast.For)]
-    idx_name = lp_loops[0].target.elts[0].id if lp_loops and isinstance(lp_loops[0].target, ast.Tuple) else None
-    ok = len(ports) == 1 and tails and all(t[0] == next(iter(ports))[0] and t[1] == "top_node" and t[2] == "link_pos" for t in tails) \
-        and next(iter(ports))[1] == idx_name
+    pos_ok = len(ports) == 1 and next(iter(ports))[1] in ("__elem__(enumerate(names))[0]",)
+    ok = len(ports) == 1 and tails == {next(iter(ports))[0]} and pos_ok
     (ctx.holds if ok else ctx.violation)("C15.4", k, where(ff, ff.node),
-                                          f"cells carry PORT=\"{next(iter(ports))[0]}<index>\" and edges leave '<parent>:{next(iter(ports))[0]}<link_pos>'" if ok
+                                          f"cells carry PORT=\"{next(iter(ports))[0]}<position>\" and edges leave '<parent>:{next(iter(ports))[0]}<link_pos>'" if ok
                                           else f"port naming differs between cells {sorted(ports)} and edge tails {sorted(tails)}")
-    # with a port exactly when there is a link position
-    for c in [c for c in pf.calls_in(ff.node) if txt(c.func) == "self.graph.edge"]:
-        conds = [(txt(e), pol) for kind, e, pol in guards.path_conditions(ff.node, stmt_of(ff, c)) if kind == "if" and "link_pos" in txt(e)]
-        has_port = isinstance(c.args[0], ast.JoinedStr)
-        okc = conds == [("link_pos is None", not has_port)] or conds == [("link_pos is not None", has_port)]
-        tail_ok = has_port or txt(c.args[0]) == "top_node"
-        (ctx.holds if okc and tail_ok else ctx.violation)("C15.4", ckey(ff, c, "tail"), where(ff, c),
-                                                          "edge tail: the parent's port iff a link position is given, else the parent node" if okc and tail_ok
-                                                          else f"edge tail `{txt(c.args[0])}` under {conds}")
 
 
 def _branch_of(ff, node, loop):
@@ -321,17 +364,31 @@ def c15_5(ctx, ss):
                     (ctx.holds if okr else ctx.violation)("C15.5", ckey(ff, None, "returns-id"), where(ff, ff.node),
                                                           "the helper returns the id of the node it created (one counter draw)" if okr else "the helper returns another id than the one it registered")
     ctx.floor("C15.5", "graph.node call sites", n, 3)
-    # root node exactly when there is no parent
+    # root node: created exactly once per graph and the top-level lines hang from it.  Two layouts are equivalent:
+    #  (A) iterate_chain creates it when entered without a parent, and the top-level call passes no parent;
+    #  (B) the builder creates it unconditionally before the single top-level call, which passes its id as the parent.
     ff, flow = fn(ss, VIEWER, f"{B}.iterate_chain")
-    roots = [c for c in pf.calls_in(ff.node) if txt(c.func) == "self.graph.node"]
-    ok = len(roots) == 1
-    if ok:
-        conds = [(txt(e), pol) for kind, e, pol in guards.path_conditions(ff.node, stmt_of(ff, roots[0])) if kind == "if"]
-        ok = conds in ([("not top_node", True)], [("top_node is None", True)], [("top_node", False)]) and not enclosing(ff, roots[0], (ast.For,))
-    (ctx.holds if ok else ctx.violation)("C15.5", ckey(ff, None, "root"), where(ff, roots[0] if roots else ff.node),
-                                          "the root node is created exactly when iterate_chain is entered without a parent" if ok else "the root node is not created exactly once, when there is no parent")
     bf, bflow = fn(ss, VIEWER, B)
+    roots_in = [c for c in pf.calls_in(ff.node) if txt(c.func) == "self.graph.node"]
+    roots_out = [c for c in pf.calls_in(bf.node, nested=False) if txt(c.func) == "self.graph.node"]
     tops = [c for c in pf.calls_in(bf.node, nested=False) if isinstance(c.func, ast.Name) and c.func.id == "iterate_chain"]
-    okt = len(tops) == 1 and len(tops[0].args) == 1 and not tops[0].keywords and bflow.text(tops[0].args[0]) == "self._chain[next(iter(self._chain.keys()))]"
+    okt = len(tops) == 1 and len(tops[0].args) >= 1 and bflow.text(tops[0].args[0]) in ("self._chain[next(iter(self._chain.keys()))]", "self._chain[next(iter(self._chain))]")
+    tn = call_arg(tops[0], 1, "top_node") if tops else None
+    lp_ = call_arg(tops[0], 2, "link_pos") if tops else None
+    ok = False
+    if len(roots_in) == 1 and not roots_out:
+        conds = [(txt(e), pol) for kind, e, pol in guards.path_conditions(ff.node, stmt_of(ff, roots_in[0])) if kind == "if"]
+        ok = conds in ([("top_node", False)], [("top_node is None", True)]) and not enclosing(ff, roots_in[0], (ast.For,))
+        okt = okt and tn is None and lp_ is None
+    elif len(roots_out) == 1 and not roots_in and tops:
+        r0 = roots_out[0]
+        cfg = bflow.cfg
+        uncond = not [c for c in guards.path_conditions(bf.node, stmt_of(bf, r0)) if c[0] in ("if", "loop", "exc")]
+        before = cfg.dominates(cfg.node_of(stmt_of(bf, r0)), cfg.node_of(stmt_of(bf, tops[0])))
+        same = tn is not None and r0.args and isinstance(bflow.expand(r0.args[0]), ast.Constant) and txt(bflow.expand(tn)) == txt(bflow.expand(r0.args[0]))
+        ok = uncond and before and bool(same)
+        okt = okt and bool(same) and lp_ is None
+    (ctx.holds if ok else ctx.violation)("C15.5", ckey(ff, None, "root"), where(ff, (roots_in or [ff.node])[0]) if roots_in else where(bf, (roots_out or [bf.node])[0]),
+                                          "the root node is created exactly once, before any decay line is drawn" if ok else "the root node is not created exactly once, when there is no parent")
     (ctx.holds if okt else ctx.violation)("C15.5", ckey(bf, None, "entry"), where(bf, bf.node),
-                                          "the graph is built from the lines of the chain's single mother, without a parent" if okt else "the top-level call does not start from the chain's mother without a parent")
+                                          "the graph is built from the lines of the chain's single mother, hanging from the root" if okt else "the top-level call does not start from the chain's mother without a parent")
